@@ -121,3 +121,19 @@ pub fn process_memory(
         Err(p) => Err(format!("PANIC in process: {}", p)),
     }
 }
+
+/// the `darklua` command line binary, built from /repo's working tree into a target directory of its own
+pub fn darklua_binary() -> Result<std::path::PathBuf, String> {
+    let target = std::path::PathBuf::from(crate::common::VERIF_DIR).join("target").join("darklua-bin");
+    let out = std::process::Command::new("cargo")
+        .args(["build", "--offline", "--bin", "darklua"])
+        .current_dir("/repo")
+        .env("CARGO_TARGET_DIR", &target)
+        .env("CARGO_NET_OFFLINE", "true")
+        .output()
+        .map_err(|e| format!("cannot run cargo: {}", e))?;
+    if !out.status.success() {
+        return Err(format!("building the darklua binary failed: {}", String::from_utf8_lossy(&out.stderr).lines().rev().take(15).collect::<Vec<_>>().join(" | ")));
+    }
+    Ok(target.join("debug").join("darklua"))
+}
